@@ -104,3 +104,11 @@ def constructor_wiring(classes: list[str]) -> dict:
         except Unavailable as e:
             status[f"Constructor.{cls}"] = f"unavailable ({cls}.__init__: {e}); correspondence and predicates are the only tie"
     return status
+
+
+def regenerate() -> dict:
+    """everything this module checks (used by harness/translator_audit.py; the checks call `check` /
+    `constructor_wiring` with the names their property needs)"""
+    st = check(list(REGISTRY))
+    st.update(constructor_wiring(list(CONSTRUCTORS)))
+    return st
